@@ -7,6 +7,7 @@ THEOREMS = ["Lou.C03.iter_mu", "Lou.C03.run_bound", "Lou.C03.pass_loop_bound", "
             "Lou.C06Pass.fwdStage_total", "Lou.C06Pass.backStage_total", "Lou.C06Pass.fwdTest_bounds", "Lou.C06Pass.backTest_bounds",
             "Lou.FwdTerm.step_adv", "Lou.FwdTerm.loop_fuel", "Lou.FwdTerm.compile_translate_fuel",
             "Lou.BackTerm.step_adv", "Lou.BackTerm.loop_fuel", "Lou.BackTerm.translate_fuel",
+            "Lou.FwdCTerm.stepC_mu", "Lou.FwdCTerm.loopC_total", "Lou.FwdCTerm.translateC_no_fuel",
 ]
 
 CLAIM = dict(
